@@ -93,3 +93,21 @@ Theorem C13_groups_invariant_under_mapping_order : forall rcpts items items' dl 
     groups_equiv (split_by_reply pf) (split_by_reply pf').
 Proof. exact groups_invariant_under_mapping_order. Qed.
 Print Assumptions C13_groups_invariant_under_mapping_order.
+
+(* Totality of the rendering: for EVERY reply text, sender and client name /
+   address that are Unicode text (any characters, 1- to 4-byte in UTF-8; the
+   only exclusion is a lone surrogate, which Python cannot encode either), a
+   str message (D24 excluded) and an ASCII code, the bounce IS built, is
+   addressed to the original sender and quotes code and reply text, UTF-8
+   encoded, in front of the embedded original. *)
+Theorem C13_bounce_built_for_every_reply_text : forall e r ho u,
+  env_texts_ok e -> reply_texts_ok r ->
+  exists b pre di,
+    bounce_new default_hp default_fp e r ho u = Some b /\
+    b_sender b = [] /\ b_rcpts b = [e_sender e] /\
+    b_msg b = pre ++
+      text_part (boundary_of u) (join rcpt_join (map enc_xmlref (e_rcpts e)))
+                (utf8_enc (r_code (fr r))) (utf8_enc (get_message (fr r))) di (ctype_of ho) ++
+      e_hdr e ++ (if ho then [] else e_body e) ++ closing (boundary_of u).
+Proof. exact bounce_built. Qed.
+Print Assumptions C13_bounce_built_for_every_reply_text.
